@@ -11,7 +11,7 @@ citation may be attached to.
 import z3
 
 from vf import absval, common, symex
-from vf.absval import Atom, NumStr, PinStr, Sub, WordStr
+from vf.absval import Atom, CommaNumStr, NumStr, PinStr, Sub, WordStr
 from vf.symex import SInt, lift_int, mval
 
 KINDS = ["full_case", "full_case_placeholder", "full_journal", "full_law", "short", "supra", "ref", "id", "unknown"]
@@ -40,6 +40,7 @@ class Spec:
         self.page_numeric = True
         self.ed = self.edrep = None
         self.idx = None
+        self.page_comma = False
 
     @property
     def crep(self):
@@ -81,11 +82,16 @@ class H(common.Harness):
                 page = None
                 sp.placeholder = True
             elif kind == "full_journal":
-                j = eng.choose([z3.Int(f"jpage{i}") == x for x in range(3)])
+                j = eng.choose([z3.Int(f"jpage{i}") == x for x in range(4)])
                 if j == 1:
                     page, sp.placeholder = None, True
                 elif j == 2:
                     page, sp.page_numeric = WordStr(sp.page), False
+                elif j == 3:
+                    page, sp.page_numeric, sp.page_comma = CommaNumStr(sp.page), False, True
+            elif kind == "full_case" and self.params.get("comma_pages", True):
+                if eng.choose([z3.Bool(f"comma{i}"), z3.Not(z3.Bool(f"comma{i}"))]) == 0:
+                    page, sp.page_numeric, sp.page_comma = CommaNumStr(sp.page), False, True
             c.groups = {"volume": Atom(sp.vol), "reporter": Atom(sp.rep), "page": page}
             c.edition_guess = None
             c.exact_editions = c.variation_editions = c.all_editions = ()
@@ -161,11 +167,11 @@ class H(common.Harness):
         if a is b:
             return z3.BoolVal(True)
         if a.kind in ("full_case", "full_case_placeholder") and b.kind in ("full_case", "full_case_placeholder"):
-            if a.placeholder or b.placeholder:
+            if a.placeholder or b.placeholder or a.page_comma != b.page_comma:
                 return z3.BoolVal(False)
             return z3.And(a.vol == b.vol, a.crep == b.crep, a.page == b.page)
         if a.kind == "full_journal" and b.kind == "full_journal":
-            if a.placeholder != b.placeholder or a.page_numeric != b.page_numeric:
+            if a.placeholder != b.placeholder or a.page_numeric != b.page_numeric or a.page_comma != b.page_comma:
                 return z3.BoolVal(False)
             base = z3.And(a.vol == b.vol, a.rep == b.rep)
             return base if a.placeholder else z3.And(base, a.page == b.page)
@@ -236,7 +242,9 @@ class H(common.Harness):
             if sp.pin:
                 d["pin"] = ("num", mval(m, sp.pin[1])) if sp.pin[0] == "num" else ("nonnum",)
             if sp.kind == "full_journal":
-                d["jpage"] = "placeholder" if sp.placeholder else ("numeric" if sp.page_numeric else "roman")
+                d["jpage"] = "placeholder" if sp.placeholder else ("numeric" if sp.page_numeric else ("comma" if sp.page_comma else "roman"))
+            elif sp.page_comma:
+                d["jpage"] = "comma"
             out.append(d)
         # substring facts
         subs = []
@@ -389,6 +397,8 @@ def build_concrete(w):
         if kind in ("full_case", "full_case_placeholder", "short", "full_journal"):
             if kind == "full_case_placeholder" or d.get("jpage") == "placeholder":
                 groups["page"] = "___"
+            elif d.get("jpage") == "comma":
+                groups["page"] = str(d.get("page", 0)) + ",000"
             elif d.get("jpage") == "roman":
                 groups["page"] = "x" * (d.get("page", 0) % 3 + 1) + "i" * (d.get("page", 0) // 3 % 3)
             tok = M.CitationToken("x", 0, 1, groups=groups)
